@@ -517,6 +517,20 @@ class Interp:
             raw_ = v["str"].encode()
             return Seq(Lin.const(v.get("len", len(raw_))), None, None, None, ("lit:" + raw_.hex(), Lin.const(0)) if self.track_content and len(raw_) <= 16 else None)
         t = fr.body.ty(op["ty"])
+        if "bytes" in v and v.get("relocs") and t.get("k") == "ref":
+            # a constant `&[T]` / `&[T; N]`: fat (or thin) pointer into constant memory
+            to_ = fr.body.ty(t["to"])
+            rel = v["relocs"][0]["to"] if v["relocs"][0].get("off") == 0 else None
+            raw_ = bytes.fromhex(v["bytes"])
+            if rel and "mem" in rel and to_.get("k") in ("slice", "array"):
+                n_ = int.from_bytes(raw_[8:16], "little") if to_.get("k") == "slice" and len(raw_) >= 16 else to_.get("len")
+                if isinstance(n_, int) and "of" in to_:
+                    arr = self.const_array(fr, {"k": "array", "len": n_, "of": to_["of"]}, {"mem": rel["mem"]})
+                    if to_.get("k") == "slice":
+                        return arr
+                    cell = "const:%s:%s" % (to_.get("s"), rel["mem"][:64])
+                    st.cells[cell] = arr
+                    return Ref(cell)
         if "mem" in v:
             n = v["len"]
             if t.get("k") == "adt":
@@ -1550,7 +1564,9 @@ class Interp:
             # decision-table runs: outside loops every undecided branch stays on the path's record, so that paths that
             # took different branches are never merged (inside loops the usual joins apply)
             sp = str(t.get("span") or "")
-            if bb not in self._inloop(fr.body) and not getattr(fr, "in_loop", False) and sp.startswith(("stun-proto/", "stun-types/")):
+            lst = st.cells.get("ghost:listed")
+            bounded = isinstance(lst, Num) and lst.e.is_const() and lst.e.c == 1       # inside a walk over a listed (finite) iterator
+            if ((bb not in self._inloop(fr.body) and not getattr(fr, "in_loop", False)) or bounded) and sp.startswith(("stun-proto/", "stun-types/")):
                 # (branches of expanded logging macros carry the macro's span and are not recorded)
                 for tb, s2, _ in out:
                     p_ = s2.cells.get("ghost:path")
